@@ -13,6 +13,13 @@
 //!            (PortState has no Connecting: the Listener holds the task at every Wait(d) announcement
 //!            until the next outcome is prepared, the delay is measured from the release of that
 //!            hold to the next announcement, which directly follows the next open attempt)
+//!   variant  rtuserver   the REAL `spawn_rtu_server_task` on a pty. The RTU server has no listener: the
+//!            delay is only logged, so a tracing subscriber records the task's log lines with time
+//!            stamps ("unable to open serial port, retrying in <d>", "waiting <d> to reopen port",
+//!            "opened port"). Script letters as for rtu; the outcome of an attempt depends on what
+//!            the harness managed to prepare during the preceding wait, so the ACTUAL outcome of
+//!            every attempt is reported (F = the open failed, D = the port opened and was lost) and
+//!            the caller computes the expected delays for the actual sequence.
 //! The Listener records every ClientState with a monotonic time stamp and holds the task at every
 //! `Connecting` announcement until the scripted peer is ready for the next attempt.
 //! output line: one field per announced wait, ','-separated:  <F|D><delay in ns><+|-|?>
@@ -71,6 +78,144 @@ impl Listener<PortState> for PortGate {
             MaybeAsync::ready(())
         }
     }
+}
+
+static LOG: std::sync::Mutex<Vec<(Instant, String)>> = std::sync::Mutex::new(Vec::new());
+
+struct LogWriter;
+impl std::io::Write for LogWriter {
+    fn write(&mut self, buf: &[u8]) -> std::io::Result<usize> {
+        LOG.lock().unwrap().push((Instant::now(), String::from_utf8_lossy(buf).to_string()));
+        Ok(buf.len())
+    }
+    fn flush(&mut self) -> std::io::Result<()> {
+        Ok(())
+    }
+}
+
+fn parse_debug_duration(s: &str) -> Option<Duration> {
+    // Debug format of std::time::Duration: 20ms, 1s, 1.5s, 500µs, 10ns
+    let s = s.trim();
+    let (num, unit) = s.split_at(s.find(|c: char| !(c.is_ascii_digit() || c == '.'))?);
+    let x: f64 = num.parse().ok()?;
+    let ns = match unit {
+        "ns" => x,
+        "µs" => x * 1e3,
+        "ms" => x * 1e6,
+        "s" => x * 1e9,
+        _ => return None,
+    };
+    Some(Duration::from_nanos(ns.round() as u64))
+}
+
+struct NoHandler;
+impl rodbus::server::RequestHandler for NoHandler {}
+
+async fn rtu_server_scenario(min: Duration, max: Duration, script: &str, n: usize) -> String {
+    use rodbus::server::*;
+    let dir = std::env::temp_dir().join(format!("verif-ptys-{}-{}", std::process::id(), n));
+    let _ = std::fs::create_dir_all(&dir);
+    let link = dir.join("port");
+    let _ = std::fs::remove_file(&link);
+    let mut pty: Option<Pty> = None;
+    let prepare = |o: Option<char>, pty: &mut Option<Pty>| -> bool {
+        let _ = std::fs::remove_file(&link);
+        if let Some(p) = pty.take() {
+            p.close();
+        }
+        if o == Some('o') {
+            match Pty::open() {
+                Some(p) => {
+                    if std::os::unix::fs::symlink(&p.path, &link).is_err() {
+                        return false;
+                    }
+                    *pty = Some(p);
+                }
+                None => return false,
+            }
+        }
+        true
+    };
+    let mut outcomes = script.chars();
+    let total = script.chars().count();
+    if !prepare(outcomes.next(), &mut pty) {
+        return "NOPTY".to_string();
+    }
+    let tag = format!("{:?}", link.to_str().unwrap());
+    let handle = match spawn_rtu_server_task(
+        link.to_str().unwrap(),
+        SerialSettings::default(),
+        doubling_retry_strategy(min, max),
+        ServerHandlerMap::single(UnitId::new(1), NoHandler.wrap()),
+        DecodeLevel::nothing(),
+    ) {
+        Ok(h) => h,
+        Err(_) => return "NOSERVER".to_string(),
+    };
+    let mut cursor = 0usize;
+    let mut out: Vec<String> = Vec::new();
+    let mut pending: Option<(Duration, Instant, usize)> = None;
+    let deadline = Instant::now() + (max + Duration::from_millis(200)) * (total as u32 + 2) + Duration::from_secs(3);
+    'outer: while Instant::now() < deadline {
+        let lines: Vec<(Instant, String)> = {
+            let g = LOG.lock().unwrap();
+            let v: Vec<_> = g[cursor.min(g.len())..].to_vec();
+            cursor = g.len();
+            v
+        };
+        if lines.is_empty() {
+            tokio::time::sleep(Duration::from_millis(1)).await;
+            continue;
+        }
+        for (t, line) in lines {
+            if !line.contains(&tag) {
+                continue;
+            }
+            let attempt = line.contains("opened port") || line.contains("unable to open serial port");
+            if attempt {
+                if let Some((d, t0, ix)) = pending.take() {
+                    out[ix].push(if t.duration_since(t0) >= d { '+' } else { '-' });
+                    if out.len() >= total {
+                        break 'outer;
+                    }
+                }
+            }
+            if line.contains("opened port") {
+                // lose the session
+                let _ = std::fs::remove_file(&link);
+                if let Some(p) = pty.take() {
+                    p.close();
+                }
+            }
+            let wait = if let Some(ix) = line.find("retrying in ") {
+                let rest = &line[ix + "retrying in ".len()..];
+                rest.split(" - ").next().and_then(parse_debug_duration).map(|d| ('F', d))
+            } else if let Some(ix) = line.find("waiting ") {
+                let rest = &line[ix + "waiting ".len()..];
+                rest.split(" to reopen").next().and_then(parse_debug_duration).map(|d| ('D', d))
+            } else {
+                None
+            };
+            if let Some((kind, d)) = wait {
+                out.push(format!("{kind}{}", d.as_nanos()));
+                pending = Some((d, t, out.len() - 1));
+                if !prepare(outcomes.next(), &mut pty) {
+                    return "NOPTY".to_string();
+                }
+            }
+        }
+    }
+    drop(handle);
+    if let Some(p) = pty.take() {
+        p.close();
+    }
+    let _ = std::fs::remove_dir_all(&dir);
+    for f in out.iter_mut() {
+        if !f.ends_with('+') && !f.ends_with('-') {
+            f.push('?');
+        }
+    }
+    out.join(",")
 }
 
 struct Pty {
@@ -233,6 +378,9 @@ async fn scenario(line: String, ip: Ipv4Addr, n: usize) -> String {
     if variant == "rtu" {
         return rtu_scenario(min, max, script, n).await;
     }
+    if variant == "rtuserver" {
+        return rtu_server_scenario(min, max, script, n).await;
+    }
     // reserve a port number on this scenario's own loopback address
     let port = std::net::TcpListener::bind((ip, 0)).unwrap().local_addr().unwrap().port();
     let addr = SocketAddr::from((ip, port));
@@ -366,6 +514,15 @@ async fn scenario(line: String, ip: Ipv4Addr, n: usize) -> String {
 pub fn main(_args: &[String]) -> i32 {
     crate::util::quiet_panics();
     let lines: Vec<String> = crate::util::stdin_lines().collect();
+    if lines.iter().any(|l| l.starts_with("rtuserver")) {
+        // the RTU server announces its delays only in its log
+        let _ = tracing_subscriber::fmt()
+            .with_max_level(tracing::Level::INFO)
+            .with_ansi(false)
+            .without_time()
+            .with_writer(|| LogWriter)
+            .try_init();
+    }
     let rt = tokio::runtime::Builder::new_multi_thread().worker_threads(4).enable_all().build().unwrap();
     let pid = std::process::id();
     let results: Vec<String> = rt.block_on(async move {
